@@ -51,6 +51,7 @@ type Ptr struct {
 	elemT types.Type // pElem/pBox element type
 	gname string     // pGlobal
 	gtyp  types.Type
+	gNonNil bool
 }
 
 type Closure struct {
